@@ -144,3 +144,27 @@ Theorem C08_set_ports_semantics :
   set_ports_body = ["a1.EnSbrPort = a2"; "a1.EnMgrPort = a3"; "return a1"].
 Proof. reflexivity. Qed.
 Print Assumptions C08_set_ports_semantics.
+
+(* Part 7: "the emitted AXI configuration records agree with the protocols", for every accepted description: each
+   record (AxiCfg; AxiCfgN and AxiCfgW in narrow-wide mode) carries the address, data and user width of EVERY protocol of
+   its kind (they agree, C10) and as InIdWidth / OutIdWidth the id width of a declared protocol of that kind. *)
+From FV Require Import ParseProofs.
+Theorem C08_model_axi_cfgs : forall v d g c axi,
+  parse_desc v = Ok d -> compile d g = Ok c -> emit_axi_cfgs c = Ok axi ->
+  forall name fields, In (name, fields) axi ->
+    exists kind pi po, In pi (d_protos d) /\ In po (d_protos d) /\
+      (if d_nw d then (name = "AxiCfgN" /\ kind = "narrow") \/ (name = "AxiCfgW" /\ kind = "wide") else name = "AxiCfg") /\
+      (d_nw d = true -> of_kind kind pi = true /\ of_kind kind po = true) /\
+      cfg_field fields "InIdWidth" = Some (p_id pi) /\ cfg_field fields "OutIdWidth" = Some (p_id po) /\
+      forall p, In p (d_protos d) -> (d_nw d = true -> of_kind kind p = true) ->
+        cfg_field fields "AddrWidth" = Some (p_addr p) /\ cfg_field fields "DataWidth" = Some (p_data p) /\
+        cfg_field fields "UserWidth" = Some (p_user p).
+Proof. exact axi_cfgs_agree. Qed.
+Print Assumptions C08_model_axi_cfgs.
+
+Example C08_axi_cfgs_nonvacuous :
+  match (do g <- build (ex_nw ID); do c <- compile (ex_nw ID) g; emit_axi_cfgs c) with
+  | Ok axi => map fst axi
+  | Err _ => []
+  end = ["AxiCfgN"; "AxiCfgW"].
+Proof. vm_compute. reflexivity. Qed.
